@@ -14,7 +14,7 @@ import os
 import tokenize
 
 from rope.base import exceptions
-from rope.contrib import codeassist
+from rope.contrib import codeassist, findit
 
 from ..binder import ProjectBinding, build, check_against_symtable, owner_scope, resolve
 from ..core import Check, h8
@@ -34,6 +34,8 @@ PICK = {
     "S9": dict(g0=["a", "b"], p0=["a", "b"], l0=["a", "c"], u0=["a", "b"], imp=["late", "a"]),
     "S8": dict(g0=["a", "b"], p0=["a", "b"], l0=["a", "b", "c"], u0=["a", "b"]),
     "S10": dict(g0=["a"], g1=["b"], p0=["a", "b"], u0=["a", "b"], p1=["c", "b"], u1=["a", "b"], ann=["int"], l0=["a", "c"], u2=["a", "b"]),
+    "S11": dict(k0=["a"], m0=["c"], g0=["caf\u00e9", "match", "case", "type", "_", "a"], g1=["stra\u00dfen", "b"]),
+    "S12": dict(g0=["a"], l0=["a", "b"], p1=["c", "b"], mb=["pass"], w=["{l0} = 7", "{l0} += 1"], u1=["a", "b"]),
     "S3C": dict(g0=["a"], p0=["a", "b"], c2=["a", "b"], e0=["e", "a"], w0=["w"], t0=["t", "a"], u2=["b"]),
 }
 BUILTINS = set(dir(builtins))
@@ -64,7 +66,7 @@ def mods():
 class C20(Check):
     pid = "C20"
     level = "exploration"
-    rule = ("cases = modules of 10 scoping schemas (incl. multi-line default values / annotations / decorator arguments that read names the function also binds) (incl. a function-level import of a project module) (incl. multi-line statements whose continuation lines are indented less than the enclosing def) (selected hole menus; CPython-valid); evaluations = one code_assist call per "
+    rule = ("cases = modules of 12 scoping schemas (incl. non-ASCII and soft-keyword receiver names, nonlocal through three nested functions) (incl. multi-line default values / annotations / decorator arguments that read names the function also binds) (incl. a function-level import of a project module) (incl. multi-line statements whose continuation lines are indented less than the enclosing def) (selected hole menus; CPython-valid); evaluations = one code_assist call per "
             "(module, character offset, variant in {as is, rest of line deleted}, maxfixes in {1,3}, later_locals in {T,F}) and one "
             "get_definition_location call per identifier token; checks: no exception on a valid module (only RopeError tolerated on "
             "the truncated variant); every proposal starts with the typed prefix; on statement-body positions outside "
@@ -86,6 +88,7 @@ class C20(Check):
     def setup_worker(self):
         self.bench = Bench("c20")
         self.ctx = self.bench.open({"xplaceholder.py": "", "xlibmod.py": "# library module used by schema S9\n\n\n\n\n\n\ndef tool():\n    return 1\n\n\nlate = 2\na = 3\n"})
+        self.xm = self.ctx.project.get_file("xplaceholder.py")
 
     def run(self, case):
         res = {"n": 0, "nt": [], "out": {}, "mech": {}, "fails": [], "refused": 0, "passfeat": []}
@@ -244,6 +247,13 @@ class C20(Check):
                                         roles |= {"missing-role:" + r for r in tgt.bound.get(n, [])} | {"missing-from:" + tgt.kind}
                                 fail("visible-name-not-offered", ef + sorted(roles) + ["at:" + sc.kind], {"offset": offset, "prefix": prefix, "missing": sorted(missing), "line": lines[lineno - 1]})
         # ---- definition lookup
+        tokkey_at = {s_: k_ for s_, e_, n_, k_ in toks}
+        stmts_at = {}
+        for node in ast.walk(tree):
+            if isinstance(node, ast.stmt):
+                first = min([node.lineno] + [d_.lineno for d_ in getattr(node, "decorator_list", [])])
+                stmts_at.setdefault(node.lineno, []).append(node)
+                stmts_at.setdefault(first, []).append(node)
         for s, e, n, k in toks:
             if k in (None, "untracked") or k[0] != "lex":
                 continue
@@ -266,6 +276,28 @@ class C20(Check):
                 if sc_:
                     roles = ["def-role:" + r for r in sc_[0].bound.get(n, ["attr-only"])] + ["def-scope:" + sc_[0].kind]
                 fail("definition-line-differs", roles, {"offset": s, "name": n, "rope_line": line, "binding_lines": sorted(want)})
+                continue
+            # the same question through findit.find_definition (a Location with region and line), on the module as a resource
+            try:
+                loc = findit.find_definition(project, src, s, resource=self.xm)
+            except Exception as ex:
+                fail("internal:" + type(ex).__name__, ["in:find_definition"], {"offset": s, "name": n, "exception": repr(ex)[:200]})
+                continue
+            res["mech"]["find_definition"] = res["mech"].get("find_definition", 0) + 1
+            ok_loc = False
+            if loc is not None and src[loc.region[0]:loc.region[1]] == n:
+                if loc.lineno in want:
+                    ok_loc = True
+                elif tokkey_at.get(loc.region[0]) == k:
+                    # the exact token of a binding that sits on a continuation line of the binding statement / header
+                    for L in want:
+                        for node in stmts_at.get(L, ()):
+                            hend = node.body[0].lineno - 1 if isinstance(node, (ast.FunctionDef, ast.AsyncFunctionDef, ast.ClassDef)) else node.end_lineno
+                            if L <= loc.lineno <= hend:
+                                ok_loc = True
+            if line is not None and not ok_loc:
+                fail("find-definition-differs", ["def-lookup:findit"], {"offset": s, "name": n, "binding_lines": sorted(want),
+                                                                         "location": None if loc is None else [loc.lineno, list(loc.region)]})
         res["out"]["module-ok" if not res["fails"] else "module-bad"] = 1
         res["sample"] = {"source": src}
         return res
